@@ -78,6 +78,7 @@ func cmdVCs(args []string) int {
 			continue
 		}
 		x := NewExec(P, f, c)
+		x.forProp = *propF
 		if up := os.Getenv("GOVC_UNMERGED"); up != "" {
 			x.noMergeAll = true
 			x.onlyProp = up
@@ -244,6 +245,7 @@ func (ck *Check) verifyFunctions(filter func(c *Contract) bool) {
 			continue
 		}
 		x := NewExec(P, f, c)
+		x.forProp = ck.Prop
 		if ck.unmerged {
 			x.noMergeAll = true
 			x.onlyProp = ck.Prop
@@ -262,7 +264,7 @@ func (ck *Check) verifyFunctions(filter func(c *Contract) bool) {
 				xk := x
 				if k > 0 {
 					xk = NewExec(P, f, c)
-					xk.noMergeAll, xk.onlyProp, xk.covers, xk.coverProp, xk.renamePerm = x.noMergeAll, x.onlyProp, x.covers, x.coverProp, k
+					xk.noMergeAll, xk.onlyProp, xk.covers, xk.coverProp, xk.renamePerm, xk.forProp = x.noMergeAll, x.onlyProp, x.covers, x.coverProp, k, x.forProp
 					if xk.Run() != nil {
 						continue
 					}
